@@ -37,12 +37,16 @@ def msg_tree_strategy(c=None, names=None, **kw):
     return s()
 
 
+_PLAIN_CLASSES = {"pos", "finite", "nonempty", "true", "false", "zero", "posfrac"}
+
+
 def describe(schema: Schema, fi: FI, v) -> str:
+    """'<kind>=<value classes>'; in containers only the corner classes are named (else 'std')."""
     if fi.card == "repeated":
-        cls = sorted({_vc(schema, fi, x) for x in v}) or ["none"]
+        cls = sorted({_vc(schema, fi, x) for x in v} - _PLAIN_CLASSES) or (["std"] if v else ["none"])
     elif fi.card == "map":
-        pairs = v.items() if isinstance(v, dict) else v
-        cls = sorted({_vc(schema, fi.val, x) for _, x in pairs}) or ["none"]
+        pairs = list(v.items() if isinstance(v, dict) else v)
+        cls = sorted({_vc(schema, fi.val, x) for _, x in pairs} - _PLAIN_CLASSES) or (["std"] if pairs else ["none"])
     else:
         cls = [_vc(schema, fi, v)]
     return f"{fi.kind}={'+'.join(cls)}"
